@@ -71,7 +71,7 @@ def generate(seed, tier):
         params, inits = G.instantiate_params(rng, meta, prog)
         pv = program_variables(prog)
         goals = G.goal_monomials(rng, pv, max_deg=2, count=2, prefer=meta["data"] or None)
-        kinds = [rng.choice(["E", "E", "E", "c2", "k2", "k3"]) for _ in goals]
+        kinds = [rng.choice(["E", "E", "E", "c2", "k2", "k3", "tl"]) for _ in goals]
         cases.append({"id": f"gen-{cs}", "text": program_str(prog), "ast": prog.to_json(), "params": K.frac_enc(params),
                       "inits": K.frac_enc(inits), "goals": goals, "kinds": kinds, "N": 6 if tier == "quick" else 8,
                       "K": 30 if tier == "quick" else 50, "features": feats})
@@ -95,9 +95,17 @@ def cond_seq(eng, dists, monomial):
     return out
 
 
+TAIL_A = Fraction(-3, 2)   # threshold of the lower tail bound goals P(M > a) >= ?
+
+
 def goal_value(kind, raw):
     """raw: dict k -> conditional raw moment E[M^k | stopped]"""
     m1 = raw[1]
+    if kind == "tl":
+        den = raw[2] - 2 * TAIL_A * m1 + TAIL_A ** 2
+        if den == 0:
+            raise ZeroDivisionError
+        return (m1 - TAIL_A) ** 2 / den
     if kind == "E":
         return m1
     if kind in ("c2", "k2"):
@@ -157,7 +165,7 @@ def run_case(case, tier):
     nontrivial = False
     samples = []
     for g, kind in zip(goals, kinds):
-        order = {"E": 1, "c2": 2, "k2": 2, "k3": 3}[kind]
+        order = {"E": 1, "c2": 2, "k2": 2, "k3": 3, "tl": 2}[kind]
         mono = se_sympify(P.monom_str(g))
         # ---- (1) the conditional sequence (raw moment of the goal monomial)
         try:
@@ -214,6 +222,17 @@ def run_case(case, tier):
                     lim, _ = ga.handle_moment_goal([mono])
                 elif kind == "c2":
                     lim, _ = ga.handle_central_moment_goal([2, mono])
+                elif kind == "tl":
+                    # the handler only prints: P(M > a) >= <bound>
+                    import io, contextlib, re as _re
+                    buf = io.StringIO()
+                    with contextlib.redirect_stdout(buf):
+                        ga.handle_tail_bound_lower_goal([mono, se_sympify(str(TAIL_A))])
+                    mm = _re.search(r"^P\(.* > .*?\) >= (.*)$", buf.getvalue(), _re.M)
+                    if not mm:
+                        res["refusals"].append("after_loop:tail-bound-line-not-found")
+                        continue
+                    lim = sympy.sympify(mm.group(1).strip())
                 else:
                     lim, _ = ga.handle_cumulant_goal([int(kind[1]), mono])
             res["events"]["GoalsAction.after_loop"] = res["events"].get("GoalsAction.after_loop", 0) + 1
@@ -233,7 +252,10 @@ def run_case(case, tier):
             raw = {}
             for k in range(1, order + 1):
                 raw[k] = eng2.moment(stopped, {v: e * k for v, e in g.items()}) / ps
-            return goal_value(kind, raw)
+            try:
+                return goal_value(kind, raw)
+            except ZeroDivisionError:
+                return None
         cK, c2K = ref_goal(long_dists[KK]), ref_goal(long_dists[2 * KK])
         if cK is None or c2K is None:
             res["extra"]["limit-undefined"] = res["extra"].get("limit-undefined", 0) + 1
